@@ -1,0 +1,60 @@
+//go:build verif
+
+// Contracts for package util, checked by /verif/gocv (comment-only file).
+package util
+
+// The dynamic types of Node are the four node kinds of this package; origin trackers are
+// *OriginTracker, *OriginTrackerNode or a node kind.
+//@ closed Node
+//@ closed OriginTrackerI
+
+// Every node carries an origin tracker node whose tracker is a plain *OriginTracker
+// (NewOriginTrackerNode, CreateNode and Clone are the only writers).
+//@ typeinv OriginTrackerNode: self.OriginTracker is *OriginTracker        #plain-tracker
+//@ typeinv ValueNode: self.OriginTrackerNode != nil                        #has-tracker
+//@ typeinv LeafNode: self.OriginTrackerNode != nil                         #has-tracker
+//@ typeinv FullNode: self.OriginTrackerNode != nil                         #has-tracker
+//@ typeinv ExtensionNode: self.OriginTrackerNode != nil                    #has-tracker
+
+// ---- C15: decoders ----
+
+// binary.Read into *int64 fields cannot panic (library, assumed); only the two fields change.
+//@ func (*OriginTracker).Read returns (err)
+//@   trusted
+//@   assigns o.Version, o.Origin
+//@ func (*OriginTracker).Write returns (err)
+//@   trusted
+//@   assigns nothing
+
+//@ func CreateNode returns (node, err)
+//@   props C15
+//@   mode wrap
+//@   requires r != nil
+//@   ensures err == nil ==> node != nil                                     #node-on-success
+
+//@ func (*SecureSerializableValue).UnmarshalMsg returns (o, err)
+//@   props C15
+//@   mode wrap
+//@   assigns spv.Buffer
+//@   ensures err == nil
+
+//@ func (*ValueNode).Decode returns (err)
+//@   props C15
+//@   mode wrap
+//@   assigns vn.Value
+//@ func (*LeafNode).Decode returns (err)
+//@   props C15
+//@   mode wrap
+//@   assigns ln.Prefix, ln.Path, ln.Value, ln.Value.Value
+//@ func (*FullNode).Decode returns (err)
+//@   props C15
+//@   mode wrap
+//@   assigns fn.Children, fn.Value, fn.Value.Value
+//@ func (*ExtensionNode).Decode returns (err)
+//@   props C15
+//@   mode wrap
+//@   assigns en.Path, en.NodeKey
+
+//@ func (*deadNodes).decode returns (err)
+//@   props C15
+//@   mode wrap
